@@ -45,6 +45,26 @@ pub fn strategy(max_targets: usize) -> impl Strategy<Value = Case> {
         })
 }
 
+/// CLI variant: fewer changes (every one becomes a real file), acyclic configs only.
+pub fn strategy_cli() -> impl Strategy<Value = Case> {
+    (
+        gen::raw_config(8, 3, 3),
+        proptest::collection::vec((0u8..9, any::<u16>(), any::<u16>()), 0..=60),
+    )
+        .prop_map(|(raw, rc)| {
+            let config = gen::build_config(&raw, CycleMode::Acyclic);
+            let mut seen = BTreeSet::new();
+            let mut changes = vec![];
+            for (k, a, b) in rc {
+                let p = gen::change_path(&config, k, a, b);
+                if seen.insert(p.clone()) {
+                    changes.push(p);
+                }
+            }
+            Case { config, changes, rot: 0 }
+        })
+}
+
 pub struct Parsed {
     pub targets: Vec<String>,
     /// per change: path -> [(target, reason)]
@@ -386,6 +406,49 @@ pub fn check(case: &Case, _w: usize) -> CheckResult {
     Ok(info)
 }
 
+/// End-to-end sample: the same relation through a real repository and the real CLI.
+pub fn check_cli(case: &Case, w: usize) -> CheckResult {
+    let cfg = &case.config;
+    let mut env = crate::bb::Env::new(w);
+    env.install_config(cfg);
+    if let Err(e) = crate::bb::commit_all_and_checkpoint(&mut env) {
+        return inconclusive(e);
+    }
+    let created = crate::bb::create_files(&env, &case.changes, true);
+    let o = env.mr(&["analyze", "--all"]);
+    let Some(v) = o.json() else {
+        if o.error_type() == "graph" {
+            return Ok(CaseInfo::new(false).class("rejected(graph)").inv(env.invocations));
+        }
+        return viol_obs("c01.cli.error", "analyze --all failed".into(), o.brief());
+    };
+    let p = parse_analyze(&v).map_err(|e| Violation::new("c01.output", e))?;
+    if !p.checkpointed {
+        return viol("c01.checkpointed", "a checkpoint exists but checkpointed=false".into());
+    }
+    let mut got: Vec<String> = p.changes.iter().map(|c| c.0.clone()).collect();
+    got.sort();
+    let mut want = created.clone();
+    want.sort();
+    if got != want {
+        return viol_obs(
+            "c01.cli.changes",
+            "the reported change paths are not exactly the files that were created".into(),
+            json!({"reported": got, "created": want}),
+        );
+    }
+    judge(cfg, &created, &p, true)?;
+    if p.groups.is_none() {
+        return viol("c01.cli.groups", "analyze --all printed no target_groups".into());
+    }
+    let (nt, classes) = nontrivial(cfg, &created);
+    let mut info = CaseInfo::new(nt).inv(env.invocations);
+    for c in classes {
+        info = info.class(c);
+    }
+    Ok(info)
+}
+
 pub fn golden() -> Vec<Case> {
     let mk = |targets: Vec<(&str, Vec<&str>, Vec<&str>)>, changes: Vec<&str>| Case {
         config: ConfigSpec {
@@ -428,16 +491,19 @@ route (uses / nested uses / ignore veto) or a string-prefix sibling is present; 
         "configs rejected with a graph error are not judged here (C03/C09)".into(),
     ];
     ctx.drive_all("golden", golden(), "golden regression cases", check);
-    let n = ctx.n(20_000, 1_000_000);
+    let n = ctx.n(12_000, 1_000_000);
     ctx.drive("inproc", || strategy(10), n, check);
-    let n2 = ctx.n(2_000, 50_000);
+    let n2 = ctx.n(1_000, 50_000);
     ctx.drive("inproc-wide", || strategy(24), n2, check);
+    ctx.drive_all("golden-cli", golden(), "golden regression cases (CLI)", check_cli);
+    let n3 = ctx.n(150, 3000);
+    ctx.drive("cli", || strategy_cli(), n3, check_cli);
 }
 
 pub fn replay(ctx: &Ctx, label: &str, case: Value) -> Result<(), String> {
     let _ = label;
     let c: Case = serde_json::from_value(case).map_err(|e| e.to_string())?;
-    let r = check(&c, 0);
+    let r = if label.contains("cli") { check_cli(&c, 0) } else { check(&c, 0) };
     ctx.replay_one(label, &c, r);
     Ok(())
 }
